@@ -28,7 +28,7 @@ Inputs == IF Kinds \cap {"tree", "treem"} # {} THEN {s \in Strs(MaxLen) : BalFro
 
 (* "E" stands for a two-byte character (the harness maps it to U+00E9),   *)
 (* "W" for a four-byte one                                                *)
-Width(kind, t) == IF kind = "str" THEN (CASE t = "E" -> 2 [] t = "W" -> 4 [] OTHER -> 1) ELSE 1
+Width(kind, t) == IF kind = "str" THEN (CASE t = "E" -> 2 [] t = "W" -> 4 [] t = "X" -> 2 [] t \in {"L", "P"} -> 3 [] OTHER -> 1) ELSE 1
 RECURSIVE OffsFrom(_, _, _)
 OffsFrom(kind, s, o) == IF s = <<>> THEN <<o>> ELSE <<o>> \o OffsFrom(kind, Tail(s), o + Width(kind, Head(s)))
 Offs(kind, s) == OffsFrom(kind, s, 0)
@@ -253,11 +253,40 @@ DrpTemplates ==
   \cup {<<"grouparr", <<<<"grouparr", <<x, y>>>>, z>>>> : x \in DLeaves, y \in DLeaves, z \in DLeaves}
   \cup {<<"then", <<"ornot", <<"exact", <<"rep", x, 0, Inf>>, 3>>>>, RestCap>> : x \in DLeaves}
   \cup {<<"recover", g, <<"via", <<"to", <<"any">>, "r">>>>>> : g \in {<<"grouparr", <<x, y>>>> : x \in DLeaves, y \in DLeaves}}
-Templates(fam) == CASE fam = "memoT" -> MemoTemplates [] fam = "drpT" -> DrpTemplates [] fam = "rcvT" -> RcvTemplates [] fam = "lblT" -> LblTemplates
+(* C14: the parsers of chumsky::text as the grammars src/text.rs builds them from *)
+TM(cls) == <<"trymap", <<"any">>, cls>>                              \* any().try_map(|c| if class(c) { Ok } else { Err(expected ..) })
+Run0(cls) == <<"run", <<"rep", TM(cls), 0, Inf>>>>
+TWs == <<"text", "ws", "", <<"toslice", Run0("ws")>>>>                                 \* whitespace().to_slice()
+TIws == <<"text", "iws", "", <<"toslice", Run0("iws")>>>>
+TNl == <<"text", "nl", "", <<"toslice", <<"newline">>>>>>
+TDigits(r) == <<"text", "digits", r, <<"toslice", <<"run", <<"rep", TM("dig" \o r), 1, Inf>>>>>>>>
+TInt(r) == <<"text", "int", r,
+              <<"toslice", <<"or", <<"ignored", <<"then", TM("nz" \o r), Run0("dig" \o r)>>>>, <<"ignored", J("0")>>>>>>>>
+IdentG(cst, cco) == <<"toslice", <<"then", TM(cst), Run0(cco)>>>>
+TAIdent == <<"text", "aident", "", IdentG("aidstart", "aidcont")>>
+TUIdent == <<"text", "uident", "", IdentG("uidstart", "uidcont")>>
+TAKw(k) == <<"text", "akw", k, <<"toslice", <<"sleq", IdentG("aidstart", "aidcont"), k>>>>>>
+TUKw(k) == <<"text", "ukw", k, <<"toslice", <<"sleq", IdentG("uidstart", "uidcont"), k>>>>>>
+TextParsers == {TWs, TIws, TNl, TAIdent, TUIdent, TAKw(<<"a">>), TAKw(<<"a", "1">>), TUKw(<<"E", "a">>), TUKw(<<"_">>)}
+               \cup {TDigits(r) : r \in {"2", "10", "16"}} \cup {TInt(r) : r \in {"2", "8", "10", "16", "36"}}
+TxtTemplates ==
+  TextParsers
+  \cup {<<"then", tp, RestCap>> : tp \in TextParsers}                                   \* what is left after the match
+TxtCTemplates ==
+  {<<"tpadded", tp>> : tp \in TextParsers \ {TWs, TIws, TNl}}
+  \cup {<<"then", <<"tpadded", tp>>, RestCap>> : tp \in {TInt("10"), TAIdent}}
+  \cup {<<"collect", <<"sep", tp, <<"tpadded", J("+")>>, 0, Inf, FALSE, FALSE>>, "vec">> : tp \in {TInt("10"), TUIdent, TAKw(<<"a">>)}}
+  \cup {<<"then", TAKw(<<"a">>), <<"then", TWs, TAIdent>>>>, <<"or", TAKw(<<"a">>), TAIdent>>,
+        <<"collect", <<"rep", <<"theni", TAIdent, TNl>>, 0, Inf>>, "vec">>,
+        <<"collect", <<"rep", <<"or", TInt("10"), <<"or", TUIdent, <<"or", TNl, TDigits("16")>>>>>>, 0, 3>>, "vec">>}
+Templates(fam) == CASE fam = "memoT" -> MemoTemplates [] fam = "txt" -> TxtTemplates [] fam = "txtc" -> TxtCTemplates
+                    \* byte inputs have no text::newline; the radix family looks at int / digits only
+                    [] fam = "txtb" -> {g \in TxtTemplates \cup TxtCTemplates : ~HasOp(g, {"newline"}) /\ g \notin {TUKw(<<"E", "a">>), <<"then", TUKw(<<"E", "a">>), RestCap>>}}
+                    [] fam = "txtr" -> {<<"then", tp, RestCap>> : tp \in {TDigits(r) : r \in {"2", "8", "10", "16", "36"}} \cup {TInt(r) : r \in {"2", "8", "10", "16", "36"}}} [] fam = "drpT" -> DrpTemplates [] fam = "rcvT" -> RcvTemplates [] fam = "lblT" -> LblTemplates
                     [] fam = "pratt" -> PrattTemplates [] fam = "rec" -> RecTemplates [] fam = "lrec" -> LRecTemplates [] fam = "repT" -> RepTemplates
-TemplateFams == {"rec", "lrec", "repT", "pratt", "memoT", "rcvT", "lblT", "drpT"}
+TemplateFams == {"rec", "lrec", "repT", "pratt", "memoT", "rcvT", "lblT", "drpT", "txt", "txtc", "txtb", "txtr"}
 
-Grammars == IF Fam \in TemplateFams THEN Templates(Fam)
+Grammars == IF Fam \in TemplateFams THEN {g \in Templates(Fam) : Fam = "lrec" \/ WF(g)}
             ELSE {g \in UNION {GSz(Fam, n) : n \in 1..MaxSize} : WF(g)}
 
 RECURSIVE InputSeqs(_)
@@ -382,6 +411,17 @@ Flat(v) ==
     [] OTHER -> <<>>
 PrattFlatten ==
   (st.done /\ result.ok /\ TopMode = "E" /\ Fam = "pratt") => Flat(result.out) = Toks
+
+(* C14: whenever a text parser returns, it matched exactly the prefix its documented language   *)
+(* prescribes (and failed where the language has no match), and its output is that slice        *)
+TextRefines ==
+  (ret.set /\ ~st.done /\ Op(ret.fr.g) = "text") =>
+    LET fr == ret.fr
+        m == TextMatch(fr.g[2], fr.g[3], SubSeq(Toks, fr.cp.cur + 1, fr.rng[2]))
+        sp == SpanOf(fr.cp.cur, cur)
+    IN /\ ret.ok = (m >= 0)
+       /\ ret.ok => /\ cur = fr.cp.cur + m
+                    /\ fr.mode = "E" => ret.val = VSl(sp[1], sp[2])
 
 (* C19: every tracked value is either in the returned output or has been dropped: nothing is   *)
 (* lost at the sites that manage initialisation by hand (group over arrays, collect_exactly)   *)
